@@ -18,8 +18,9 @@ class Valid:
 
 
 class Invalid:
-    def __init__(self, why):
+    def __init__(self, why, detail=""):
         self.why = why
+        self.detail = detail
 
     def __repr__(self):
         return "Invalid(%s)" % self.why
@@ -87,7 +88,7 @@ def read_dimacs(text):
                 if _python_int_accepts(tok):
                     gray = gray or "exotic integer spelling"
                 else:
-                    return Invalid("non-integer token %r" % tok)
+                    return Invalid("non-integer token", repr(tok))
             v = int(tok)
             if v == 0:
                 clauses.append(tuple(cur))
